@@ -93,7 +93,8 @@ def run_check(prop, tier, seed, replay=None):
                     mod.run(ctx)
             except common.InternalError:
                 raise
-            except Exception as e:  # noqa: BLE001
+            except (Exception, SystemExit) as e:  # noqa: BLE001
+                # (SystemExit: argparse inside the real get_options rejecting arguments the real code composed)
                 # an exception that comes out of /repo's code while the harness drives it in-process is a broken
                 # correspondence (the model says the call returns), not a machinery failure
                 tb = traceback.extract_tb(e.__traceback__)
